@@ -6,6 +6,7 @@ import (
 	"fmt"
 	"iter"
 	"net"
+	"slices"
 	"sync"
 	"sync/atomic"
 	"testing"
@@ -762,6 +763,7 @@ func (c *VersionedGraph) FilterKnownChanIDs(ctx context.Context,
 		return nil, err
 	}
 
+	var revived bool
 	for _, info := range knownZombies {
 		// Sanity check that the returned zombie channels are on the
 		// same gossip version as the one we passed in.
@@ -804,6 +806,16 @@ func (c *VersionedGraph) FilterKnownChanIDs(ctx context.Context,
 
 			return nil, err
 		}
+
+		// The channel is neither known nor a zombie any more, so it
+		// belongs to the set of channels to query the peer for.
+		unknown = append(unknown, info.ShortChannelID.ToUint64())
+		revived = true
+	}
+
+	// Keep the ascending order of the passed set.
+	if revived {
+		slices.Sort(unknown)
 	}
 
 	return unknown, nil
